@@ -21,6 +21,42 @@ From GB Require Import Base.Field Gauss.Moment1D Model.MomentInt Proofs.DiffOpP 
 Import ListNotations.
 Local Open Scope R_scope.
 
+(* 0. THE FULL STATEMENT OF THE PROPERTY, with the analytic bridge B3 as its explicit hypotheses:
+      if the overlap array is the Gram matrix of the basis functions in some semi-inner-product space
+      (L2), the kinetic array that of their gradients, the point-charge array -q times that of the basis
+      functions under the weight 1/|r-C|, and the repulsion array that of the pair densities under the
+      Coulomb form, and the overlap diagonal is 1 (C01), then: S is symmetric PSD with |S_ab| <= 1;
+      T is symmetric PSD; V is symmetric NSD for q >= 0; the repulsion array is PSD over index pairs,
+      pair-symmetric, (ab|ab) >= 0 and (ab|cd)^2 <= (ab|ab)(cd|cd).
+      The four [exists] hypotheses are what is NOT proved here (B3). *)
+Theorem C17_all_bounds_from_B3_partial :
+  forall (I : Type) (Sm Tm Vm : I -> I -> R) (G : I -> I -> I -> I -> R) (q : R),
+  0 <= q ->
+  (exists (L2 : ipspace) (phi : I -> vec L2), forall a b, Sm a b = ip L2 (phi a) (phi b)) ->
+  (exists (H1 : ipspace) (dphi : I -> vec H1), forall a b, Tm a b = ip H1 (dphi a) (dphi b)) ->
+  (exists (W : ipspace) (phi : I -> vec W), forall a b, Vm a b = - q * ip W (phi a) (phi b)) ->
+  (exists (C : ipspace) (rho : I -> I -> vec C), forall a b c d, G a b c d = ip C (rho a b) (rho c d)) ->
+  (forall a, Sm a a = 1) ->
+  symm Sm /\ psd Sm /\ (forall a b, Rabs (Sm a b) <= 1) /\
+  symm Tm /\ psd Tm /\
+  symm Vm /\ nsd Vm /\
+  psd (fun p r : I * I => G (fst p) (snd p) (fst r) (snd r)) /\
+  (forall a b c d, G a b c d = G c d a b) /\
+  (forall a b, 0 <= G a b a b) /\
+  (forall a b c d, G a b c d * G a b c d <= G a b a b * G c d c d).
+Proof. exact all_bounds_from_B3. Qed.
+Print Assumptions C17_all_bounds_from_B3_partial.
+
+Example C17_ex_B3_hypotheses_satisfiable :
+  exists (Sm Tm Vm : unit -> unit -> R) (G : unit -> unit -> unit -> unit -> R),
+  (exists (L2 : ipspace) (phi : unit -> vec L2), forall a b, Sm a b = ip L2 (phi a) (phi b)) /\
+  (exists (H1 : ipspace) (dphi : unit -> vec H1), forall a b, Tm a b = ip H1 (dphi a) (dphi b)) /\
+  (exists (W : ipspace) (phi : unit -> vec W), forall a b, Vm a b = - 2 * ip W (phi a) (phi b)) /\
+  (exists (C : ipspace) (rho : unit -> unit -> vec C), forall a b c d, G a b c d = ip C (rho a b) (rho c d)) /\
+  (forall a, Sm a a = 1).
+Proof. exact all_bounds_hypotheses_satisfiable. Qed.
+Print Assumptions C17_ex_B3_hypotheses_satisfiable.
+
 (* 1. The quadratic form of a Gram matrix is non-negative: sum_a sum_b c_a c_b <v_a, v_b> >= 0.
       [qf G l] is that double sum for the coefficient list l = [(c, a); ...]. *)
 Theorem C17_gram_psd :
@@ -122,14 +158,35 @@ Theorem C17_kinetic_prim_symm :
 Proof. exact (fun F K Kf Ax Bx alpha beta Hp H2 => kinetic_prim_symm K Kf Ax Bx alpha beta Hp H2). Qed.
 Print Assumptions C17_kinetic_prim_symm.
 
-(* One centre, one primitive pair, one axis: the Gaussian moment functional (variance v >= 0) is
-   positive on squares,  E(f * f) >= 0  ([hank v 0 f g] = sum_i f_i E(y^i g) = E(f g)).
-   PARTIAL: degree <= 3 only; the statement for all degrees (positive semi-definiteness of the Hankel
-   matrix of the moments (2k-1)!! v^k) is not proved. *)
-Theorem C17_one_centre_psd_partial :
-  forall v c0 c1 c2 c3 : R, 0 <= v -> 0 <= hank v 0 [c0; c1; c2; c3] [c0; c1; c2; c3].
-Proof. exact hankel3_psd_partial. Qed.
-Print Assumptions C17_one_centre_psd_partial.
+(* One centre, one exponent pair, one axis — the case in which the bridge B3 is NOT needed:
+   the Gaussian moment functional E (variance v = 1/(2p) >= 0) is positive on squares, E(f f) >= 0 for
+   every polynomial f of every degree ([hank v 0 f g] = sum_i f_i E(y^i g) = E(f g)); hence the matrix
+   E(f_a f_b) of ANY finite family of polynomials (the 1-D overlap matrix of functions sharing centre
+   and exponent pair) is positive semi-definite and satisfies Schwarz.
+   PARTIAL with respect to the property: the three-dimensional (tensor-product) case and families on
+   several centres / with several exponents are not derived from E (bridge B3). *)
+Theorem C17_one_centre_square_nonneg :
+  forall (v : R) (f : list R), 0 <= v -> 0 <= hank v 0 f f.
+Proof. exact hankel_psd. Qed.
+Print Assumptions C17_one_centre_square_nonneg.
+
+Theorem C17_one_centre_moment_identity :
+  forall (v : R) (f g : list R) (N : nat), (length f <= N)%nat ->
+  hank v 0 f g = rsumn (S N) (fun k => wk v k * ek v k f * ek v k g).
+Proof. exact hank_identity. Qed.
+Print Assumptions C17_one_centre_moment_identity.
+
+Theorem C17_one_centre_gram_psd_partial :
+  forall (v : R), 0 <= v -> forall (I : Type) (fam : I -> list R) (l : list (R * I)),
+  0 <= qf (fun a b => hank v 0 (fam a) (fam b)) l.
+Proof. exact (fun v Hv I fam => one_centre_gram_psd v Hv fam). Qed.
+Print Assumptions C17_one_centre_gram_psd_partial.
+
+Theorem C17_one_centre_schwarz_partial :
+  forall (v : R), 0 <= v -> forall f g : list R,
+  hank v 0 f g * hank v 0 f g <= hank v 0 f f * hank v 0 g g.
+Proof. exact one_centre_schwarz. Qed.
+Print Assumptions C17_one_centre_schwarz_partial.
 
 (* ---- the hypotheses are satisfiable: R^2 with the dot product; a linearly dependent family; a
         degenerate (semi-definite) space; unit diagonal; the perturbation hypothesis ---- *)
@@ -158,3 +215,7 @@ Example C17_ex_perturbation : forall c : R,
   - (INR 1 * (1 / 4) * (c * c + 0)) <= qf (fun _ _ : unit => 3 / 4) [(c, tt)].
 Proof. exact perturbation_example. Qed.
 Print Assumptions C17_ex_perturbation.
+
+Example C17_ex_standard_normal_moments : hank 1 0 [1; 1] [1; 1] = 2 /\ hank 1 0 [0; 0; 1] [0; 0; 1] = 3.
+Proof. exact hank_example. Qed.
+Print Assumptions C17_ex_standard_normal_moments.
